@@ -697,36 +697,36 @@ private def A (r l : Nat) (w a : Bool) (ls : List Nat) (p : Bool) (rel : List (N
 
 /-- Artifact.Children -/
 def g0 : List Access := [
-  A 0 0 false false [] false [(1, .post), (2, .mid), (3, .mid), (4, .mid)],  -- app.collectArtifactsRec result.go:256 
-  A 0 0 true false [] false [(1, .post), (2, .mid), (3, .mid), (4, .mid)]  -- app.collectArtifactsRec$1 result.go:251 
+  A 0 0 false false [] false [(1, .post), (2, .mid), (3, .mid), (4, .mid)],  -- app.collectArtifactsRec result.go:267 
+  A 0 0 true false [] false [(1, .post), (2, .mid), (3, .mid), (4, .mid)]  -- app.collectArtifactsRec$1 result.go:262 
 ]
 
 /-- Artifact.Children[] -/
 def g1 : List Access := [
-  A 0 1 false false [] false [(1, .post), (2, .mid), (3, .mid), (4, .mid)],  -- app.collectArtifacts result.go:212 
-  A 0 1 true false [] false [(1, .post), (2, .mid), (3, .mid), (4, .mid)]  -- app.collectArtifactsRec$1 result.go:251 
+  A 0 1 false false [] false [(1, .post), (2, .mid), (3, .mid), (4, .mid)],  -- app.collectArtifacts result.go:223 
+  A 0 1 true false [] false [(1, .post), (2, .mid), (3, .mid), (4, .mid)]  -- app.collectArtifactsRec$1 result.go:262 
 ]
 
 /-- Result.Artifacts -/
 def g2 : List Access := [
-  A 0 2 false false [] false [(1, .post), (2, .mid), (3, .mid), (4, .mid)],  -- app.collectArtifacts result.go:212 
-  A 0 2 true false [] false [(1, .post), (2, .mid), (3, .mid), (4, .mid)]  -- app.collectArtifacts result.go:212 
+  A 0 2 false false [] false [(1, .post), (2, .mid), (3, .mid), (4, .mid)],  -- app.collectArtifacts result.go:223 
+  A 0 2 true false [] false [(1, .post), (2, .mid), (3, .mid), (4, .mid)]  -- app.collectArtifacts result.go:223 
 ]
 
 /-- Result.Artifacts[] -/
 def g3 : List Access := [
-  A 0 3 true false [] false [(1, .post), (2, .mid), (3, .mid), (4, .mid)]  -- app.collectArtifacts result.go:212 
+  A 0 3 true false [] false [(1, .post), (2, .mid), (3, .mid), (4, .mid)]  -- app.collectArtifacts result.go:223 
 ]
 
 /-- Result.Diffs[] -/
 def g4 : List Access := [
-  A 0 4 true false [] false [(1, .post), (2, .mid), (3, .mid), (4, .mid)]  -- app.assemble result.go:204 
+  A 0 4 true false [] false [(1, .post), (2, .mid), (3, .mid), (4, .mid)]  -- app.assemble result.go:215 
 ]
 
 /-- []interface{}[] -/
 def g5 : List Access := [
-  A 8 5 true false [] true [],  -- audition.processAssignments audit.go:511 
-  A 8 5 false false [] true []  -- init$19 functions.go:312 
+  A 8 5 true false [] true [],  -- audition.processAssignments audit.go:515 
+  A 8 5 false false [] true []  -- init$19 functions.go:317 
 ]
 
 /-- []plotgroup[] -/
@@ -737,13 +737,13 @@ def g6 : List Access := [
 /-- actionReport.failOk -/
 def g7 : List Access := [
   A 7 7 false false [] true [],  -- collector.collectActionReport ? reflect
-  A 10 7 true false [] true [(13, .mid), (14, .mid)]  -- prompter.runLine prompt.go:264 
+  A 10 7 true false [] true [(13, .mid), (14, .mid)]  -- prompter.runLine prompt.go:269 
 ]
 
 /-- actor.actionScripts[] -/
 def g8 : List Access := [
   A 0 8 true false [] false [(1, .pre), (2, .pre), (3, .pre), (4, .pre)],  -- actor.prepareActionCommands commands.go:283 
-  A 10 8 false false [] true [(13, .mid), (14, .mid)]  -- actor.runAction prompt.go:339 
+  A 10 8 false false [] true [(13, .mid), (14, .mid)]  -- actor.runAction prompt.go:352 
 ]
 
 /-- actor.cleanupScript -/
@@ -793,16 +793,16 @@ def g13 : List Access := [
 def g14 : List Access := [
   A 7 14 false false [] true [],  -- app.expandTimeRange app.go:122 
   A 7 14 true false [] true [],  -- app.expandTimeRange app.go:123 
-  A 0 14 false false [] false [(1, .post), (2, .mid), (3, .mid), (4, .mid)],  -- app.assemble result.go:104 
-  A 0 14 true false [] false [(1, .post), (2, .mid), (3, .mid), (4, .mid)]  -- app.assemble result.go:109 
+  A 0 14 false false [] false [(1, .post), (2, .mid), (3, .mid), (4, .mid)],  -- app.assemble result.go:115 
+  A 0 14 true false [] false [(1, .post), (2, .mid), (3, .mid), (4, .mid)]  -- app.assemble result.go:120 
 ]
 
 /-- app.minTime -/
 def g15 : List Access := [
   A 7 15 false false [] true [],  -- app.expandTimeRange app.go:125 
   A 7 15 true false [] true [],  -- app.expandTimeRange app.go:126 
-  A 0 15 false false [] false [(1, .post), (2, .mid), (3, .mid), (4, .mid)],  -- app.assemble result.go:108 
-  A 0 15 true false [] false [(1, .post), (2, .mid), (3, .mid), (4, .mid)]  -- app.assemble result.go:109 
+  A 0 15 false false [] false [(1, .post), (2, .mid), (3, .mid), (4, .mid)],  -- app.assemble result.go:119 
+  A 0 15 true false [] false [(1, .post), (2, .mid), (3, .mid), (4, .mid)]  -- app.assemble result.go:120 
 ]
 
 /-- app.startTime -/
@@ -869,44 +869,44 @@ def g23 : List Access := [
 
 /-- auditionReport.output -/
 def g24 : List Access := [
-  A 8 24 true false [] true [],  -- audition.processFsmStateChange audit.go:585 
+  A 8 24 true false [] true [],  -- audition.processFsmStateChange audit.go:589 
   A 7 24 false false [] true []  -- collector.collectAuditionReport ? reflect
 ]
 
 /-- auditionReport.result -/
 def g25 : List Access := [
-  A 8 25 true false [] true [],  -- audition.processFsmStateChange audit.go:588 
+  A 8 25 true false [] true [],  -- audition.processFsmStateChange audit.go:592 
   A 7 25 false false [] true []  -- collector.collectAuditionReport ? reflect
 ]
 
 /-- auditionResults.actChanges -/
 def g26 : List Access := [
-  A 8 26 false false [] true [],  -- audition.collectAndAuditActChange audit.go:269 
-  A 8 26 true false [] true [],  -- audition.collectAndAuditActChange audit.go:269 
-  A 0 26 false false [] false [(1, .post), (2, .mid), (3, .mid), (4, .mid)]  -- app.assemble result.go:178 
+  A 8 26 false false [] true [],  -- audition.collectAndAuditActChange audit.go:273 
+  A 8 26 true false [] true [],  -- audition.collectAndAuditActChange audit.go:273 
+  A 0 26 false false [] false [(1, .post), (2, .mid), (3, .mid), (4, .mid)]  -- app.assemble result.go:107 
 ]
 
 /-- auditionResults.actChanges[] -/
 def g27 : List Access := [
-  A 8 27 true false [] true [],  -- audition.collectAndAuditActChange audit.go:269 
+  A 8 27 true false [] true [],  -- audition.collectAndAuditActChange audit.go:273 
   A 0 27 false false [] false [(1, .post), (2, .mid), (3, .mid), (4, .mid)]  -- app.assemble ? 
 ]
 
 /-- auditionResults.moodPeriods -/
 def g28 : List Access := [
-  A 8 28 false false [] true [],  -- audition.checkFinal audit.go:258 
-  A 8 28 true false [] true [],  -- audition.checkFinal audit.go:258 
-  A 0 28 false false [] false [(1, .post), (2, .mid), (3, .mid), (4, .mid)]  -- app.subPlots$1 plot.go:285 
+  A 8 28 false false [] true [],  -- audition.checkFinal audit.go:262 
+  A 8 28 true false [] true [],  -- audition.checkFinal audit.go:262 
+  A 0 28 false false [] false [(1, .post), (2, .mid), (3, .mid), (4, .mid)]  -- app.assemble result.go:110 
 ]
 
 /-- auditionResults.moodPeriods[] -/
 def g29 : List Access := [
-  A 8 29 true false [] true []  -- audition.checkFinal audit.go:258 
+  A 8 29 true false [] true []  -- audition.checkFinal audit.go:262 
 ]
 
 /-- auditionResults.numRepeats -/
 def g30 : List Access := [
-  A 0 30 false false [] false [(1, .post), (2, .mid), (3, .mid), (4, .mid)],  -- app.assemble result.go:197 
+  A 0 30 false false [] false [(1, .post), (2, .mid), (3, .mid), (4, .mid)],  -- app.assemble result.go:208 
   A 5 30 true false [] true [(10, .pre)],  -- prompter.prompt prompt.go:49 
   A 5 30 false false [] true [],  -- prompter.prompt prompt.go:136 
   A 5 30 true false [] true []  -- prompter.prompt prompt.go:156 
@@ -915,34 +915,34 @@ def g30 : List Access := [
 /-- auditionState.auditorStates[] -/
 def g31 : List Access := [
   A 1 31 true false [] true [(5, .pre), (6, .pre), (7, .pre), (8, .pre)],  -- makeAuditionState audit.go:151 
-  A 8 31 false false [] true []  -- audition.checkEvent audit.go:354 
+  A 8 31 false false [] true []  -- audition.checkEvent audit.go:358 
 ]
 
 /-- auditionState.curActivated[] -/
 def g32 : List Access := [
   A 1 32 true false [] true [(5, .pre), (6, .pre), (7, .pre), (8, .pre)],  -- makeAuditionState audit.go:155 
-  A 8 32 false false [] true [],  -- audition.hasDeps expr.go:113 
+  A 8 32 false false [] true [],  -- audition.hasDeps expr.go:116 
   A 8 32 true false [] true []  -- audition.resetSigVars audit.go:173 
 ]
 
 /-- auditionState.curMood -/
 def g33 : List Access := [
-  A 8 33 false false [] true [],  -- audition.checkEvent audit.go:322 
-  A 8 33 true false [] true []  -- audition.processMoodChange audit.go:304 
+  A 8 33 false false [] true [],  -- audition.checkEvent audit.go:326 
+  A 8 33 true false [] true []  -- audition.processMoodChange audit.go:308 
 ]
 
 /-- auditionState.curMoodStart -/
 def g34 : List Access := [
-  A 8 34 false false [] true [],  -- audition.checkEvent audit.go:328 
-  A 8 34 true false [] true []  -- audition.processMoodChange audit.go:303 
+  A 8 34 false false [] true [],  -- audition.checkEvent audit.go:332 
+  A 8 34 true false [] true []  -- audition.processMoodChange audit.go:307 
 ]
 
 /-- auditionState.curVals[] -/
 def g35 : List Access := [
   A 1 35 false false [] true [(5, .pre), (6, .pre), (7, .pre), (8, .pre)],  -- makeAuditionState audit.go:157 
   A 1 35 true false [] true [(5, .pre), (6, .pre), (7, .pre), (8, .pre)],  -- makeAuditionState audit.go:162 
-  A 8 35 false false [] true [],  -- audition.processAssignments audit.go:507 
-  A 8 35 true false [] true []  -- audition.setAndActivateVar audit.go:646 
+  A 8 35 false false [] true [],  -- audition.processAssignments audit.go:511 
+  A 8 35 true false [] true []  -- audition.setAndActivateVar audit.go:650 
 ]
 
 /-- auditor.hasData -/
@@ -957,21 +957,21 @@ def g36 : List Access := [
 def g37 : List Access := [
   A 1 37 false false [] true [(5, .post), (6, .post), (7, .post), (8, .post)],  -- collector.isPlayFouledByDisappointment collector.go:404 
   A 1 37 true false [] true [(5, .pre), (6, .pre), (7, .pre), (8, .pre)],  -- makeAuditionState audit.go:149 
-  A 8 37 false false [] true [],  -- audition.processAssignments audit.go:497 
+  A 8 37 false false [] true [],  -- audition.processAssignments audit.go:501 
   A 7 37 false false [] true [],  -- collector.isPlayFouledByDisappointment collector.go:404 
   A 0 37 false false [] false [(2, .mid), (3, .mid), (4, .mid)]  -- auditor.fmtFoul config.go:818 
 ]
 
 /-- auditorState.activated -/
 def g38 : List Access := [
-  A 8 38 false false [] true [],  -- audition.checkEvent audit.go:365 
+  A 8 38 false false [] true [],  -- audition.checkEvent audit.go:369 
   A 8 38 true false [] true []  -- audition.resetAuditors audit.go:180 
 ]
 
 /-- auditorState.auditing -/
 def g39 : List Access := [
-  A 8 39 false false [] true [],  -- audition.checkEvent audit.go:364 
-  A 8 39 true false [] true []  -- audition.checkEventForAuditor audit.go:469 
+  A 8 39 false false [] true [],  -- audition.checkEvent audit.go:368 
+  A 8 39 true false [] true []  -- audition.checkEventForAuditor audit.go:473 
 ]
 
 /-- collectedSignal.drawEvents -/
@@ -1028,23 +1028,23 @@ def g46 : List Access := [
 
 /-- config.authors -/
 def g47 : List Access := [
-  A 0 47 false false [] false [(1, .post), (2, .mid), (3, .mid), (4, .mid)],  -- app.assemble result.go:138 
+  A 0 47 false false [] false [(1, .post), (2, .mid), (3, .mid), (4, .mid)],  -- app.assemble result.go:149 
   A 0 47 false false [] false [(1, .pre), (2, .pre), (3, .pre), (4, .mid)],  -- app.intro app.go:212 
-  A 0 47 false false [] false [(1, .pre), (2, .pre), (3, .pre), (4, .pre)],  -- config.parseCfg parsecfg.go:52 
-  A 0 47 true false [] false [(1, .pre), (2, .pre), (3, .pre), (4, .pre)],  -- config.parseCfg parsecfg.go:52 
+  A 0 47 false false [] false [(1, .pre), (2, .pre), (3, .pre), (4, .pre)],  -- config.parseCfg parsecfg.go:56 
+  A 0 47 true false [] false [(1, .pre), (2, .pre), (3, .pre), (4, .pre)],  -- config.parseCfg parsecfg.go:56 
   A 0 47 false false [] false [(2, .mid), (3, .mid), (4, .mid)]  -- config.printCfg config.go:330 
 ]
 
 /-- config.authors[] -/
 def g48 : List Access := [
-  A 0 48 true false [] false [(1, .pre), (2, .pre), (3, .pre), (4, .pre)],  -- config.parseCfg parsecfg.go:52 
+  A 0 48 true false [] false [(1, .pre), (2, .pre), (3, .pre), (4, .pre)],  -- config.parseCfg parsecfg.go:56 
   A 0 48 false false [] false [(2, .mid), (3, .mid), (4, .mid)]  -- config.printCfg ? 
 ]
 
 /-- config.dataDir -/
 def g49 : List Access := [
   A 7 49 false false [] true [],  -- collector.collect collector.go:153 
-  A 0 49 false false [] false [(1, .post), (2, .mid), (3, .mid), (4, .mid)],  -- app.collectArtifacts result.go:211 
+  A 0 49 false false [] false [(1, .post), (2, .mid), (3, .mid), (4, .mid)],  -- app.collectArtifacts result.go:222 
   A 0 49 false false [] false [(2, .mid), (3, .mid), (4, .mid)],  -- config.artifactsDir config.go:242 
   A 0 49 true false [] false [(1, .pre), (2, .pre), (3, .pre), (4, .pre)],  -- config.initArgs config.go:129 ext:spf13/pflag.StringVarP
   A 0 49 false false [] false [(1, .pre), (2, .pre), (3, .pre), (4, .pre)]  -- config.prepareDirs config.go:185 
@@ -1060,13 +1060,13 @@ def g50 : List Access := [
 def g51 : List Access := [
   A 0 51 false false [] false [(1, .pre), (2, .pre), (3, .pre), (4, .pre)],  -- Run$1 run.go:52 
   A 0 51 true false [] false [(1, .pre), (2, .pre), (3, .pre), (4, .pre)],  -- Run$1 run.go:53 
-  A 0 51 false false [] false [(1, .post), (2, .mid), (3, .mid), (4, .mid)]  -- app.assemble result.go:147 
+  A 0 51 false false [] false [(1, .post), (2, .mid), (3, .mid), (4, .mid)]  -- app.assemble result.go:158 
 ]
 
 /-- config.diffs[] -/
 def g52 : List Access := [
   A 0 52 true false [] false [(1, .pre), (2, .pre), (3, .pre), (4, .pre)],  -- Run$1 run.go:56 
-  A 0 52 false false [] false [(1, .post), (2, .mid), (3, .mid), (4, .mid)]  -- app.assemble result.go:203 
+  A 0 52 false false [] false [(1, .post), (2, .mid), (3, .mid), (4, .mid)]  -- app.assemble result.go:214 
 ]
 
 /-- config.doPrint -/
@@ -1112,19 +1112,19 @@ def g59 : List Access := [
 
 /-- config.pVarNames -/
 def g60 : List Access := [
-  A 0 60 false false [] false [(1, .pre), (2, .pre), (3, .pre), (4, .pre)],  -- config.parseCfg parsecfg.go:61 
-  A 0 60 true false [] false [(1, .pre), (2, .pre), (3, .pre), (4, .pre)]  -- config.parseCfg parsecfg.go:61 
+  A 0 60 false false [] false [(1, .pre), (2, .pre), (3, .pre), (4, .pre)],  -- config.parseCfg parsecfg.go:65 
+  A 0 60 true false [] false [(1, .pre), (2, .pre), (3, .pre), (4, .pre)]  -- config.parseCfg parsecfg.go:65 
 ]
 
 /-- config.pVarNames[] -/
 def g61 : List Access := [
-  A 0 61 true false [] false [(1, .pre), (2, .pre), (3, .pre), (4, .pre)]  -- config.parseCfg parsecfg.go:61 
+  A 0 61 true false [] false [(1, .pre), (2, .pre), (3, .pre), (4, .pre)]  -- config.parseCfg parsecfg.go:65 
 ]
 
 /-- config.pVars[] -/
 def g62 : List Access := [
-  A 0 62 false false [] false [(1, .pre), (2, .pre), (3, .pre), (4, .pre)],  -- config.parseCfg parsecfg.go:59 
-  A 0 62 true false [] false [(1, .pre), (2, .pre), (3, .pre), (4, .pre)]  -- config.parseCfg parsecfg.go:60 
+  A 0 62 false false [] false [(1, .pre), (2, .pre), (3, .pre), (4, .pre)],  -- config.parseCfg parsecfg.go:63 
+  A 0 62 true false [] false [(1, .pre), (2, .pre), (3, .pre), (4, .pre)]  -- config.parseCfg parsecfg.go:64 
 ]
 
 /-- config.parseOnly -/
@@ -1135,7 +1135,7 @@ def g63 : List Access := [
 
 /-- config.play -/
 def g64 : List Access := [
-  A 0 64 false false [] false [(1, .post), (2, .mid), (3, .mid), (4, .mid)],  -- app.assemble result.go:196 
+  A 0 64 false false [] false [(1, .post), (2, .mid), (3, .mid), (4, .mid)],  -- app.assemble result.go:207 
   A 0 64 false false [] false [(1, .pre), (2, .pre), (3, .pre), (4, .mid)],  -- app.intro app.go:229 
   A 0 64 true false [] false [(1, .pre), (2, .pre), (3, .pre), (4, .pre)],  -- config.compileV2 compile.go:30 
   A 0 64 false false [] false [(1, .pre), (2, .pre), (3, .pre), (4, .pre)],  -- config.compileV2 compile.go:119 
@@ -1172,37 +1172,37 @@ def g67 : List Access := [
 
 /-- config.roleNames -/
 def g68 : List Access := [
-  A 0 68 false false [] false [(1, .pre), (2, .pre), (3, .pre), (4, .pre)],  -- config.parseRole parsecfg.go:586 
-  A 0 68 true false [] false [(1, .pre), (2, .pre), (3, .pre), (4, .pre)],  -- config.parseRole parsecfg.go:586 
+  A 0 68 false false [] false [(1, .pre), (2, .pre), (3, .pre), (4, .pre)],  -- config.parseRole parsecfg.go:590 
+  A 0 68 true false [] false [(1, .pre), (2, .pre), (3, .pre), (4, .pre)],  -- config.parseRole parsecfg.go:590 
   A 0 68 false false [] false [(2, .mid), (3, .mid), (4, .mid)]  -- config.printCfg config.go:344 
 ]
 
 /-- config.roleNames[] -/
 def g69 : List Access := [
-  A 0 69 true false [] false [(1, .pre), (2, .pre), (3, .pre), (4, .pre)],  -- config.parseRole parsecfg.go:586 
+  A 0 69 true false [] false [(1, .pre), (2, .pre), (3, .pre), (4, .pre)],  -- config.parseRole parsecfg.go:590 
   A 0 69 false false [] false [(2, .mid), (3, .mid), (4, .mid)]  -- config.printCfg ? 
 ]
 
 /-- config.roles[] -/
 def g70 : List Access := [
-  A 0 70 false false [] false [(1, .pre), (2, .pre), (3, .pre), (4, .pre)],  -- config.parseRole parsecfg.go:563 
-  A 0 70 true false [] false [(1, .pre), (2, .pre), (3, .pre), (4, .pre)],  -- config.parseRole parsecfg.go:585 
+  A 0 70 false false [] false [(1, .pre), (2, .pre), (3, .pre), (4, .pre)],  -- config.parseRole parsecfg.go:567 
+  A 0 70 true false [] false [(1, .pre), (2, .pre), (3, .pre), (4, .pre)],  -- config.parseRole parsecfg.go:589 
   A 0 70 false false [] false [(2, .mid), (3, .mid), (4, .mid)]  -- config.printCfg config.go:345 
 ]
 
 /-- config.seeAlso -/
 def g71 : List Access := [
-  A 0 71 false false [] false [(1, .post), (2, .mid), (3, .mid), (4, .mid)],  -- app.assemble result.go:139 
+  A 0 71 false false [] false [(1, .post), (2, .mid), (3, .mid), (4, .mid)],  -- app.assemble result.go:150 
   A 0 71 false false [] false [(1, .pre), (2, .pre), (3, .pre), (4, .mid)],  -- app.intro app.go:215 
-  A 0 71 false false [] false [(1, .pre), (2, .pre), (3, .pre), (4, .pre)],  -- config.parseCfg parsecfg.go:49 
-  A 0 71 true false [] false [(1, .pre), (2, .pre), (3, .pre), (4, .pre)],  -- config.parseCfg parsecfg.go:49 
+  A 0 71 false false [] false [(1, .pre), (2, .pre), (3, .pre), (4, .pre)],  -- config.parseCfg parsecfg.go:53 
+  A 0 71 true false [] false [(1, .pre), (2, .pre), (3, .pre), (4, .pre)],  -- config.parseCfg parsecfg.go:53 
   A 0 71 false false [] false [(2, .mid), (3, .mid), (4, .mid)]  -- config.printCfg config.go:333 
 ]
 
 /-- config.seeAlso[] -/
 def g72 : List Access := [
   A 0 72 false false [] false [(1, .pre), (2, .pre), (3, .pre), (4, .mid)],  -- app.intro ? 
-  A 0 72 true false [] false [(1, .pre), (2, .pre), (3, .pre), (4, .pre)],  -- config.parseCfg parsecfg.go:49 
+  A 0 72 true false [] false [(1, .pre), (2, .pre), (3, .pre), (4, .pre)],  -- config.parseCfg parsecfg.go:53 
   A 0 72 false false [] false [(2, .mid), (3, .mid), (4, .mid)]  -- config.printCfg ? 
 ]
 
@@ -1220,16 +1220,16 @@ def g74 : List Access := [
 
 /-- config.titleStrings -/
 def g75 : List Access := [
-  A 0 75 false false [] false [(1, .post), (2, .mid), (3, .mid), (4, .mid)],  -- app.assemble result.go:137 
+  A 0 75 false false [] false [(1, .post), (2, .mid), (3, .mid), (4, .mid)],  -- app.assemble result.go:148 
   A 0 75 false false [] false [(1, .pre), (2, .pre), (3, .pre), (4, .mid)],  -- app.intro app.go:209 
-  A 0 75 false false [] false [(1, .pre), (2, .pre), (3, .pre), (4, .pre)],  -- config.parseCfg parsecfg.go:43 
-  A 0 75 true false [] false [(1, .pre), (2, .pre), (3, .pre), (4, .pre)],  -- config.parseCfg parsecfg.go:43 
+  A 0 75 false false [] false [(1, .pre), (2, .pre), (3, .pre), (4, .pre)],  -- config.parseCfg parsecfg.go:46 
+  A 0 75 true false [] false [(1, .pre), (2, .pre), (3, .pre), (4, .pre)],  -- config.parseCfg parsecfg.go:46 
   A 0 75 false false [] false [(2, .mid), (3, .mid), (4, .mid)]  -- config.printCfg config.go:323 
 ]
 
 /-- config.titleStrings[] -/
 def g76 : List Access := [
-  A 0 76 true false [] false [(1, .pre), (2, .pre), (3, .pre), (4, .pre)],  -- config.parseCfg parsecfg.go:43 
+  A 0 76 true false [] false [(1, .pre), (2, .pre), (3, .pre), (4, .pre)],  -- config.parseCfg parsecfg.go:46 
   A 0 76 false false [] false [(2, .mid), (3, .mid), (4, .mid)]  -- config.printCfg ? 
 ]
 
@@ -1364,19 +1364,19 @@ def g91 : List Access := [
 
 /-- fsmEval.curState -/
 def g92 : List Access := [
-  A 8 92 true false [] true [],  -- audition.startOfAuditPeriod audit.go:480 
+  A 8 92 true false [] true [],  -- audition.startOfAuditPeriod audit.go:484 
   A 8 92 false false [] true []  -- fsmEval.advance pred_fsm.go:45 
 ]
 
 /-- fsmEval.fsm -/
 def g93 : List Access := [
-  A 8 93 true false [] true [],  -- audition.startOfAuditPeriod audit.go:480 
+  A 8 93 true false [] true [],  -- audition.startOfAuditPeriod audit.go:484 
   A 8 93 false false [] true []  -- fsmEval.advance pred_fsm.go:43 
 ]
 
 /-- fsmEval.labelMap -/
 def g94 : List Access := [
-  A 8 94 true false [] true [],  -- audition.startOfAuditPeriod audit.go:480 
+  A 8 94 true false [] true [],  -- audition.startOfAuditPeriod audit.go:484 
   A 8 94 false false [] true []  -- fsmEval.advance pred_fsm.go:39 
 ]
 
@@ -1398,14 +1398,14 @@ def g96 : List Access := [
 
 /-- local config.parseRole.parserNames[] -/
 def g97 : List Access := [
-  A 0 97 true false [] false [(1, .pre), (2, .pre), (3, .pre), (4, .pre)],  -- config.parseRole parsecfg.go:583 
-  A 0 97 false false [] false [(1, .pre), (2, .pre), (3, .pre), (4, .pre)]  -- config.parseRole$1 parsecfg.go:624 
+  A 0 97 true false [] false [(1, .pre), (2, .pre), (3, .pre), (4, .pre)],  -- config.parseRole parsecfg.go:587 
+  A 0 97 false false [] false [(1, .pre), (2, .pre), (3, .pre), (4, .pre)]  -- config.parseRole$1 parsecfg.go:630 
 ]
 
 /-- local config.preprocReplace.err -/
 def g98 : List Access := [
-  A 0 98 false false [] false [(1, .pre), (2, .pre), (3, .pre), (4, .pre)],  -- config.preprocReplace parsecfg.go:1153 
-  A 0 98 true false [] false [(1, .pre), (2, .pre), (3, .pre), (4, .pre)]  -- config.preprocReplace$1 parsecfg.go:1149 
+  A 0 98 false false [] false [(1, .pre), (2, .pre), (3, .pre), (4, .pre)],  -- config.preprocReplace parsecfg.go:1160 
+  A 0 98 true false [] false [(1, .pre), (2, .pre), (3, .pre), (4, .pre)]  -- config.preprocReplace$1 parsecfg.go:1156 
 ]
 
 /-- map[string]bool[] -/
@@ -1434,8 +1434,8 @@ def g102 : List Access := [
 
 /-- parser.curLine -/
 def g103 : List Access := [
-  A 0 103 false false [] false [(1, .pre), (2, .pre), (3, .pre), (4, .pre)],  -- parser.get parsecfg.go:1109 
-  A 0 103 true false [] false [(1, .pre), (2, .pre), (3, .pre), (4, .pre)]  -- parser.m parsecfg.go:1104 
+  A 0 103 false false [] false [(1, .pre), (2, .pre), (3, .pre), (4, .pre)],  -- parser.get parsecfg.go:1116 
+  A 0 103 true false [] false [(1, .pre), (2, .pre), (3, .pre), (4, .pre)]  -- parser.m parsecfg.go:1111 
 ]
 
 /-- pflag.Flag.NoOptDefVal -/
@@ -1474,20 +1474,20 @@ def g109 : List Access := [
 /-- role.actionCmds[] -/
 def g110 : List Access := [
   A 0 110 false false [] false [(1, .pre), (2, .pre), (3, .pre), (4, .pre)],  -- actor.prepareActionCommands commands.go:281 
-  A 0 110 true false [] false [(1, .pre), (2, .pre), (3, .pre), (4, .pre)],  -- config.parseRole$1 parsecfg.go:600 
+  A 0 110 true false [] false [(1, .pre), (2, .pre), (3, .pre), (4, .pre)],  -- config.parseRole$1 parsecfg.go:604 
   A 0 110 false false [] false [(2, .mid), (3, .mid), (4, .mid)]  -- config.printCfg config.go:357 
 ]
 
 /-- role.actionNames -/
 def g111 : List Access := [
-  A 0 111 false false [] false [(1, .pre), (2, .pre), (3, .pre), (4, .pre)],  -- config.parseRole$1 parsecfg.go:598 
-  A 0 111 true false [] false [(1, .pre), (2, .pre), (3, .pre), (4, .pre)],  -- config.parseRole$1 parsecfg.go:598 
+  A 0 111 false false [] false [(1, .pre), (2, .pre), (3, .pre), (4, .pre)],  -- config.parseRole$1 parsecfg.go:602 
+  A 0 111 true false [] false [(1, .pre), (2, .pre), (3, .pre), (4, .pre)],  -- config.parseRole$1 parsecfg.go:602 
   A 0 111 false false [] false [(2, .mid), (3, .mid), (4, .mid)]  -- config.printCfg config.go:356 
 ]
 
 /-- role.actionNames[] -/
 def g112 : List Access := [
-  A 0 112 true false [] false [(1, .pre), (2, .pre), (3, .pre), (4, .pre)],  -- config.parseRole$1 parsecfg.go:598 
+  A 0 112 true false [] false [(1, .pre), (2, .pre), (3, .pre), (4, .pre)],  -- config.parseRole$1 parsecfg.go:602 
   A 0 112 false false [] false [(2, .mid), (3, .mid), (4, .mid)],  -- config.printCfg ? 
   A 0 112 false false [] false [(1, .pre), (2, .pre), (3, .pre), (4, .pre)]  -- role.clone config.go:619 
 ]
@@ -1495,27 +1495,27 @@ def g112 : List Access := [
 /-- role.cleanupCmd -/
 def g113 : List Access := [
   A 0 113 false false [] false [(1, .pre), (2, .pre), (3, .pre), (4, .pre)],  -- actor.prepareActionCommands commands.go:295 
-  A 0 113 true false [] false [(1, .pre), (2, .pre), (3, .pre), (4, .pre)],  -- config.parseRole$1 parsecfg.go:604 
+  A 0 113 true false [] false [(1, .pre), (2, .pre), (3, .pre), (4, .pre)],  -- config.parseRole$1 parsecfg.go:608 
   A 0 113 false false [] false [(2, .mid), (3, .mid), (4, .mid)]  -- config.printCfg config.go:347 
 ]
 
 /-- role.sigNames -/
 def g114 : List Access := [
-  A 0 114 false false [] false [(1, .pre), (2, .pre), (3, .pre), (4, .pre)],  -- config.parseRole parsecfg.go:582 
-  A 0 114 true false [] false [(1, .pre), (2, .pre), (3, .pre), (4, .pre)]  -- config.parseRole$1 parsecfg.go:672 
+  A 0 114 false false [] false [(1, .pre), (2, .pre), (3, .pre), (4, .pre)],  -- config.parseRole parsecfg.go:586 
+  A 0 114 true false [] false [(1, .pre), (2, .pre), (3, .pre), (4, .pre)]  -- config.parseRole$1 parsecfg.go:678 
 ]
 
 /-- role.sigNames[] -/
 def g115 : List Access := [
   A 0 115 false false [] false [(1, .pre), (2, .pre), (3, .pre), (4, .pre)],  -- config.parseRole ? 
-  A 0 115 true false [] false [(1, .pre), (2, .pre), (3, .pre), (4, .pre)]  -- config.parseRole$1 parsecfg.go:672 
+  A 0 115 true false [] false [(1, .pre), (2, .pre), (3, .pre), (4, .pre)]  -- config.parseRole$1 parsecfg.go:678 
 ]
 
 /-- role.sigParsers -/
 def g116 : List Access := [
   A 15 116 false false [] true [],  -- spotMgr.detectSignals spotlight.go:184 
-  A 0 116 false false [] false [(1, .pre), (2, .pre), (3, .pre), (4, .pre)],  -- config.parseRole$1 parsecfg.go:671 
-  A 0 116 true false [] false [(1, .pre), (2, .pre), (3, .pre), (4, .pre)],  -- config.parseRole$1 parsecfg.go:671 
+  A 0 116 false false [] false [(1, .pre), (2, .pre), (3, .pre), (4, .pre)],  -- config.parseRole$1 parsecfg.go:677 
+  A 0 116 true false [] false [(1, .pre), (2, .pre), (3, .pre), (4, .pre)],  -- config.parseRole$1 parsecfg.go:677 
   A 0 116 false false [] false [(2, .mid), (3, .mid), (4, .mid)],  -- config.printCfg config.go:353 
   A 11 116 false false [] true [(14, .mid), (15, .pre), (16, .pre)]  -- spotMgr.detectSignals spotlight.go:184 
 ]
@@ -1523,7 +1523,7 @@ def g116 : List Access := [
 /-- role.sigParsers[] -/
 def g117 : List Access := [
   A 15 117 false false [] true [],  -- spotMgr.detectSignals ? 
-  A 0 117 true false [] false [(1, .pre), (2, .pre), (3, .pre), (4, .pre)],  -- config.parseRole$1 parsecfg.go:671 
+  A 0 117 true false [] false [(1, .pre), (2, .pre), (3, .pre), (4, .pre)],  -- config.parseRole$1 parsecfg.go:677 
   A 0 117 false false [] false [(2, .mid), (3, .mid), (4, .mid)],  -- config.printCfg ? 
   A 0 117 false false [] false [(1, .pre), (2, .pre), (3, .pre), (4, .pre)],  -- role.clone config.go:620 
   A 11 117 false false [] true [(14, .mid), (15, .pre), (16, .pre)]  -- spotMgr.detectSignals ? 
@@ -1532,7 +1532,7 @@ def g117 : List Access := [
 /-- role.spotlightCmd -/
 def g118 : List Access := [
   A 0 118 false false [] false [(1, .pre), (2, .pre), (3, .pre), (4, .pre)],  -- actor.prepareActionCommands commands.go:288 
-  A 0 118 true false [] false [(1, .pre), (2, .pre), (3, .pre), (4, .pre)],  -- config.parseRole$1 parsecfg.go:602 
+  A 0 118 true false [] false [(1, .pre), (2, .pre), (3, .pre), (4, .pre)],  -- config.parseRole$1 parsecfg.go:606 
   A 0 118 false false [] false [(2, .mid), (3, .mid), (4, .mid)],  -- config.printCfg config.go:350 
   A 6 118 false false [] true [(11, .mid)]  -- spotMgr.manageSpotlights spotlight.go:65 
 ]
@@ -1575,7 +1575,7 @@ def g123 : List Access := [
 def g124 : List Access := [
   A 15 124 false false [] true [],  -- spotMgr.detectSignals spotlight.go:264 
   A 15 124 true false [] true [],  -- spotMgr.detectSignals spotlight.go:264 
-  A 8 124 false false [] true [],  -- audition.audit audit.go:230 
+  A 8 124 false false [] true [],  -- audition.audit audit.go:234 
   A 11 124 false false [] true [(14, .mid), (15, .pre), (16, .pre)],  -- spotMgr.detectSignals spotlight.go:264 
   A 11 124 true false [] true [(14, .mid), (15, .pre), (16, .pre)]  -- spotMgr.detectSignals spotlight.go:264 
 ]
@@ -1625,24 +1625,24 @@ def g131 : List Access := [
 
 /-- var actionDefRe -/
 def g132 : List Access := [
-  A 0 132 false false [] false [(1, .pre), (2, .pre), (3, .pre), (4, .pre)],  -- config.parseRole$1 parsecfg.go:589 
-  A 0 132 true false [] false [(1, .pre), (2, .pre), (3, .pre), (4, .pre)]  -- init parsecfg.go:555 
+  A 0 132 false false [] false [(1, .pre), (2, .pre), (3, .pre), (4, .pre)],  -- config.parseRole$1 parsecfg.go:593 
+  A 0 132 true false [] false [(1, .pre), (2, .pre), (3, .pre), (4, .pre)]  -- init parsecfg.go:559 
 ]
 
 /-- var activeRe -/
 def g133 : List Access := [
-  A 0 133 true false [] false [(1, .pre), (2, .pre), (3, .pre), (4, .pre)]  -- init parsecfg.go:236 
+  A 0 133 true false [] false [(1, .pre), (2, .pre), (3, .pre), (4, .pre)]  -- init parsecfg.go:240 
 ]
 
 /-- var actorDefRe -/
 def g134 : List Access := [
-  A 0 134 true false [] false [(1, .pre), (2, .pre), (3, .pre), (4, .pre)]  -- init parsecfg.go:713 
+  A 0 134 true false [] false [(1, .pre), (2, .pre), (3, .pre), (4, .pre)]  -- init parsecfg.go:719 
 ]
 
 /-- var actorsRe -/
 def g135 : List Access := [
   A 0 135 false false [] false [(1, .pre), (2, .pre), (3, .pre), (4, .pre)],  -- config.parseCfg parsecfg.go:25 
-  A 0 135 true false [] false [(1, .pre), (2, .pre), (3, .pre), (4, .pre)]  -- init parsecfg.go:712 
+  A 0 135 true false [] false [(1, .pre), (2, .pre), (3, .pre), (4, .pre)]  -- init parsecfg.go:718 
 ]
 
 /-- var adjList -/
@@ -1660,7 +1660,7 @@ def g137 : List Access := [
 /-- var audienceRe -/
 def g138 : List Access := [
   A 0 138 false false [] false [(1, .pre), (2, .pre), (3, .pre), (4, .pre)],  -- config.parseCfg parsecfg.go:27 
-  A 0 138 true false [] false [(1, .pre), (2, .pre), (3, .pre), (4, .pre)]  -- init parsecfg.go:232 
+  A 0 138 true false [] false [(1, .pre), (2, .pre), (3, .pre), (4, .pre)]  -- init parsecfg.go:236 
 ]
 
 /-- var automata -/
@@ -1670,34 +1670,34 @@ def g139 : List Access := [
 
 /-- var cleanupDefRe -/
 def g140 : List Access := [
-  A 0 140 false false [] false [(1, .pre), (2, .pre), (3, .pre), (4, .pre)],  -- config.parseRole$1 parsecfg.go:603 
-  A 0 140 true false [] false [(1, .pre), (2, .pre), (3, .pre), (4, .pre)]  -- init parsecfg.go:557 
+  A 0 140 false false [] false [(1, .pre), (2, .pre), (3, .pre), (4, .pre)],  -- config.parseRole$1 parsecfg.go:607 
+  A 0 140 true false [] false [(1, .pre), (2, .pre), (3, .pre), (4, .pre)]  -- init parsecfg.go:561 
 ]
 
 /-- var collectFns -/
 def g141 : List Access := [
-  A 8 141 false false [] true [],  -- audition.processAssignments audit.go:514 
+  A 8 141 false false [] true [],  -- audition.processAssignments audit.go:518 
   A 0 141 true false [] false [(1, .pre), (2, .pre), (3, .pre), (4, .pre)]  -- init functions.go:270 
 ]
 
 /-- var collectsRe -/
 def g142 : List Access := [
-  A 0 142 true false [] false [(1, .pre), (2, .pre), (3, .pre), (4, .pre)]  -- init parsecfg.go:237 
+  A 0 142 true false [] false [(1, .pre), (2, .pre), (3, .pre), (4, .pre)]  -- init parsecfg.go:241 
 ]
 
 /-- var computesRe -/
 def g143 : List Access := [
-  A 0 143 true false [] false [(1, .pre), (2, .pre), (3, .pre), (4, .pre)]  -- init parsecfg.go:238 
+  A 0 143 true false [] false [(1, .pre), (2, .pre), (3, .pre), (4, .pre)]  -- init parsecfg.go:242 
 ]
 
 /-- var editRe -/
 def g144 : List Access := [
-  A 0 144 true false [] false [(1, .pre), (2, .pre), (3, .pre), (4, .pre)]  -- init parsecfg.go:823 
+  A 0 144 true false [] false [(1, .pre), (2, .pre), (3, .pre), (4, .pre)]  -- init parsecfg.go:830 
 ]
 
 /-- var entailsRe -/
 def g145 : List Access := [
-  A 0 145 true false [] false [(1, .pre), (2, .pre), (3, .pre), (4, .pre)]  -- init parsecfg.go:820 
+  A 0 145 true false [] false [(1, .pre), (2, .pre), (3, .pre), (4, .pre)]  -- init parsecfg.go:827 
 ]
 
 /-- var errAuditViolation -/
@@ -1728,28 +1728,28 @@ def g149 : List Access := [
 
 /-- var expectsRe -/
 def g150 : List Access := [
-  A 0 150 true false [] false [(1, .pre), (2, .pre), (3, .pre), (4, .pre)]  -- init parsecfg.go:239 
+  A 0 150 true false [] false [(1, .pre), (2, .pre), (3, .pre), (4, .pre)]  -- init parsecfg.go:243 
 ]
 
 /-- var expectsSameRe -/
 def g151 : List Access := [
-  A 0 151 true false [] false [(1, .pre), (2, .pre), (3, .pre), (4, .pre)]  -- init parsecfg.go:240 
+  A 0 151 true false [] false [(1, .pre), (2, .pre), (3, .pre), (4, .pre)]  -- init parsecfg.go:244 
 ]
 
 /-- var foulRe -/
 def g152 : List Access := [
-  A 0 152 true false [] false [(1, .pre), (2, .pre), (3, .pre), (4, .pre)]  -- init parsecfg.go:169 
+  A 0 152 true false [] false [(1, .pre), (2, .pre), (3, .pre), (4, .pre)]  -- init parsecfg.go:173 
 ]
 
 /-- var identRe -/
 def g153 : List Access := [
-  A 0 153 false false [] false [(1, .pre), (2, .pre), (3, .pre), (4, .pre)],  -- checkIdent parsecfg.go:1072 
-  A 0 153 true false [] false [(1, .pre), (2, .pre), (3, .pre), (4, .pre)]  -- init parsecfg.go:1084 
+  A 0 153 false false [] false [(1, .pre), (2, .pre), (3, .pre), (4, .pre)],  -- checkIdent parsecfg.go:1079 
+  A 0 153 true false [] false [(1, .pre), (2, .pre), (3, .pre), (4, .pre)]  -- init parsecfg.go:1091 
 ]
 
 /-- var ignoreRe -/
 def g154 : List Access := [
-  A 0 154 true false [] false [(1, .pre), (2, .pre), (3, .pre), (4, .pre)]  -- init parsecfg.go:168 
+  A 0 154 true false [] false [(1, .pre), (2, .pre), (3, .pre), (4, .pre)]  -- init parsecfg.go:172 
 ]
 
 /-- var init$guard -/
@@ -1761,17 +1761,17 @@ def g155 : List Access := [
 /-- var interpretationRe -/
 def g156 : List Access := [
   A 0 156 false false [] false [(1, .pre), (2, .pre), (3, .pre), (4, .pre)],  -- config.parseCfg parsecfg.go:28 
-  A 0 156 true false [] false [(1, .pre), (2, .pre), (3, .pre), (4, .pre)]  -- init parsecfg.go:167 
+  A 0 156 true false [] false [(1, .pre), (2, .pre), (3, .pre), (4, .pre)]  -- init parsecfg.go:171 
 ]
 
 /-- var measuresRe -/
 def g157 : List Access := [
-  A 0 157 true false [] false [(1, .pre), (2, .pre), (3, .pre), (4, .pre)]  -- init parsecfg.go:235 
+  A 0 157 true false [] false [(1, .pre), (2, .pre), (3, .pre), (4, .pre)]  -- init parsecfg.go:239 
 ]
 
 /-- var moodChangeRe -/
 def g158 : List Access := [
-  A 0 158 true false [] false [(1, .pre), (2, .pre), (3, .pre), (4, .pre)]  -- init parsecfg.go:821 
+  A 0 158 true false [] false [(1, .pre), (2, .pre), (3, .pre), (4, .pre)]  -- init parsecfg.go:828 
 ]
 
 /-- var narratorCtx -/
@@ -1786,7 +1786,7 @@ def g159 : List Access := [
 
 /-- var noPlotRe -/
 def g160 : List Access := [
-  A 0 160 true false [] false [(1, .pre), (2, .pre), (3, .pre), (4, .pre)]  -- init parsecfg.go:241 
+  A 0 160 true false [] false [(1, .pre), (2, .pre), (3, .pre), (4, .pre)]  -- init parsecfg.go:245 
 ]
 
 /-- var nounsList -/
@@ -1797,20 +1797,20 @@ def g161 : List Access := [
 
 /-- var paramRe -/
 def g162 : List Access := [
-  A 0 162 false false [] false [(1, .pre), (2, .pre), (3, .pre), (4, .pre)],  -- config.parseCfg parsecfg.go:53 
-  A 0 162 true false [] false [(1, .pre), (2, .pre), (3, .pre), (4, .pre)]  -- init parsecfg.go:144 
+  A 0 162 false false [] false [(1, .pre), (2, .pre), (3, .pre), (4, .pre)],  -- config.parseCfg parsecfg.go:57 
+  A 0 162 true false [] false [(1, .pre), (2, .pre), (3, .pre), (4, .pre)]  -- init parsecfg.go:148 
 ]
 
 /-- var parseDefRe -/
 def g163 : List Access := [
-  A 0 163 false false [] false [(1, .pre), (2, .pre), (3, .pre), (4, .pre)],  -- config.parseRole$1 parsecfg.go:605 
-  A 0 163 true false [] false [(1, .pre), (2, .pre), (3, .pre), (4, .pre)]  -- init parsecfg.go:558 
+  A 0 163 false false [] false [(1, .pre), (2, .pre), (3, .pre), (4, .pre)],  -- config.parseRole$1 parsecfg.go:609 
+  A 0 163 true false [] false [(1, .pre), (2, .pre), (3, .pre), (4, .pre)]  -- init parsecfg.go:562 
 ]
 
 /-- var preprocRe -/
 def g164 : List Access := [
-  A 0 164 false false [] false [(1, .pre), (2, .pre), (3, .pre), (4, .pre)],  -- config.preprocReplace parsecfg.go:1144 
-  A 0 164 true false [] false [(1, .pre), (2, .pre), (3, .pre), (4, .pre)]  -- init parsecfg.go:1139 
+  A 0 164 false false [] false [(1, .pre), (2, .pre), (3, .pre), (4, .pre)],  -- config.preprocReplace parsecfg.go:1151 
+  A 0 164 true false [] false [(1, .pre), (2, .pre), (3, .pre), (4, .pre)]  -- init parsecfg.go:1146 
 ]
 
 /-- var registry -/
@@ -1836,60 +1836,60 @@ def g165 : List Access := [
 
 /-- var repeatAlwaysRe -/
 def g166 : List Access := [
-  A 0 166 true false [] false [(1, .pre), (2, .pre), (3, .pre), (4, .pre)]  -- init parsecfg.go:816 
+  A 0 166 true false [] false [(1, .pre), (2, .pre), (3, .pre), (4, .pre)]  -- init parsecfg.go:823 
 ]
 
 /-- var repeatCountRe -/
 def g167 : List Access := [
-  A 0 167 true false [] false [(1, .pre), (2, .pre), (3, .pre), (4, .pre)]  -- init parsecfg.go:815 
+  A 0 167 true false [] false [(1, .pre), (2, .pre), (3, .pre), (4, .pre)]  -- init parsecfg.go:822 
 ]
 
 /-- var repeatRe -/
 def g168 : List Access := [
-  A 0 168 true false [] false [(1, .pre), (2, .pre), (3, .pre), (4, .pre)]  -- init parsecfg.go:824 
+  A 0 168 true false [] false [(1, .pre), (2, .pre), (3, .pre), (4, .pre)]  -- init parsecfg.go:831 
 ]
 
 /-- var repeatTimeoutRe -/
 def g169 : List Access := [
-  A 0 169 true false [] false [(1, .pre), (2, .pre), (3, .pre), (4, .pre)]  -- init parsecfg.go:817 
+  A 0 169 true false [] false [(1, .pre), (2, .pre), (3, .pre), (4, .pre)]  -- init parsecfg.go:824 
 ]
 
 /-- var roleRe -/
 def g170 : List Access := [
-  A 0 170 false false [] false [(1, .pre), (2, .pre), (3, .pre), (4, .pre)],  -- config.parseCfg parsecfg.go:63 
-  A 0 170 true false [] false [(1, .pre), (2, .pre), (3, .pre), (4, .pre)]  -- init parsecfg.go:554 
+  A 0 170 false false [] false [(1, .pre), (2, .pre), (3, .pre), (4, .pre)],  -- config.parseCfg parsecfg.go:67 
+  A 0 170 true false [] false [(1, .pre), (2, .pre), (3, .pre), (4, .pre)]  -- init parsecfg.go:558 
 ]
 
 /-- var scriptRe -/
 def g171 : List Access := [
   A 0 171 false false [] false [(1, .pre), (2, .pre), (3, .pre), (4, .pre)],  -- config.parseCfg parsecfg.go:26 
-  A 0 171 true false [] false [(1, .pre), (2, .pre), (3, .pre), (4, .pre)]  -- init parsecfg.go:813 
+  A 0 171 true false [] false [(1, .pre), (2, .pre), (3, .pre), (4, .pre)]  -- init parsecfg.go:820 
 ]
 
 /-- var spotlightDefRe -/
 def g172 : List Access := [
-  A 0 172 false false [] false [(1, .pre), (2, .pre), (3, .pre), (4, .pre)],  -- config.parseRole$1 parsecfg.go:601 
-  A 0 172 true false [] false [(1, .pre), (2, .pre), (3, .pre), (4, .pre)]  -- init parsecfg.go:556 
+  A 0 172 false false [] false [(1, .pre), (2, .pre), (3, .pre), (4, .pre)],  -- config.parseRole$1 parsecfg.go:605 
+  A 0 172 true false [] false [(1, .pre), (2, .pre), (3, .pre), (4, .pre)]  -- init parsecfg.go:560 
 ]
 
 /-- var storyLineRe -/
 def g173 : List Access := [
-  A 0 173 true false [] false [(1, .pre), (2, .pre), (3, .pre), (4, .pre)]  -- init parsecfg.go:822 
+  A 0 173 true false [] false [(1, .pre), (2, .pre), (3, .pre), (4, .pre)]  -- init parsecfg.go:829 
 ]
 
 /-- var tempoRe -/
 def g174 : List Access := [
-  A 0 174 true false [] false [(1, .pre), (2, .pre), (3, .pre), (4, .pre)]  -- init parsecfg.go:814 
+  A 0 174 true false [] false [(1, .pre), (2, .pre), (3, .pre), (4, .pre)]  -- init parsecfg.go:821 
 ]
 
 /-- var watchRe -/
 def g175 : List Access := [
-  A 0 175 true false [] false [(1, .pre), (2, .pre), (3, .pre), (4, .pre)]  -- init parsecfg.go:233 
+  A 0 175 true false [] false [(1, .pre), (2, .pre), (3, .pre), (4, .pre)]  -- init parsecfg.go:237 
 ]
 
 /-- var watchVarRe -/
 def g176 : List Access := [
-  A 0 176 true false [] false [(1, .pre), (2, .pre), (3, .pre), (4, .pre)]  -- init parsecfg.go:234 
+  A 0 176 true false [] false [(1, .pre), (2, .pre), (3, .pre), (4, .pre)]  -- init parsecfg.go:238 
 ]
 
 /-- variable.watcherNames -/
@@ -1909,7 +1909,7 @@ def g178 : List Access := [
 
 /-- variable.watchers[] -/
 def g179 : List Access := [
-  A 8 179 false false [] true [],  -- audition.setAndActivateVar audit.go:650 
+  A 8 179 false false [] true [],  -- audition.setAndActivateVar audit.go:654 
   A 7 179 false false [] true [],  -- collector.collectObservation collector.go:303 
   A 0 179 false false [] false [(1, .pre), (2, .pre), (3, .pre), (4, .pre)],  -- variable.maybeAddWatcher config.go:1063 
   A 0 179 true false [] false [(1, .pre), (2, .pre), (3, .pre), (4, .pre)]  -- variable.maybeAddWatcher config.go:1066 
